@@ -65,6 +65,13 @@ class CanonCompare(ast.NodeTransformer):
         while isinstance(node.test, ast.UnaryOp) and isinstance(node.test.op, ast.Not) and node.orelse \
                 and not (len(node.orelse) == 1 and isinstance(node.orelse[0], ast.If)):
             node = ast.copy_location(ast.If(test=node.test.operand, body=node.orelse, orelse=node.body), node)
+        # conjunction normal form: `if a: if b: X` (neither with an else) is read as `if a and b: X`
+        while not node.orelse and len(node.body) == 1 and isinstance(node.body[0], ast.If) and not node.body[0].orelse:
+            inner = node.body[0]
+            vals = []
+            for t in (node.test, inner.test):
+                vals.extend(t.values if isinstance(t, ast.BoolOp) and isinstance(t.op, ast.And) else [t])
+            node = ast.copy_location(ast.If(test=ast.copy_location(ast.BoolOp(op=ast.And(), values=vals), node.test), body=inner.body, orelse=[]), node)
         return node
 
     def visit_Compare(self, node):
@@ -73,8 +80,61 @@ class CanonCompare(ast.NodeTransformer):
             l, r = node.left, node.comparators[0]
             if self._rank(l) > self._rank(r):
                 new = ast.Compare(left=r, ops=[self.FLIP[type(node.ops[0])]()], comparators=[l])
-                return ast.copy_location(new, node)
+                node = ast.copy_location(new, node)
+            # emptiness normal form: `len(x) > 0`, `len(x) >= 1` are read as `len(x) != 0`; `len(x) < 1`, `len(x) <= 0` as `len(x) == 0`
+            l, r, op = node.left, node.comparators[0], type(node.ops[0])
+            if isinstance(l, ast.Call) and isinstance(l.func, ast.Name) and l.func.id == "len" and isinstance(r, ast.Constant) \
+                    and type(r.value) is int:
+                if (op, r.value) in ((ast.Gt, 0), (ast.GtE, 1)):
+                    node = ast.copy_location(ast.Compare(left=l, ops=[ast.NotEq()], comparators=[ast.copy_location(ast.Constant(0), r)]), node)
+                elif (op, r.value) in ((ast.Lt, 1), (ast.LtE, 0)):
+                    node = ast.copy_location(ast.Compare(left=l, ops=[ast.Eq()], comparators=[ast.copy_location(ast.Constant(0), r)]), node)
         return node
+
+
+TERMINATORS = (ast.Return, ast.Raise, ast.Continue, ast.Break)
+
+
+def _blocks(node):
+    for f in ("body", "orelse", "finalbody"):
+        v = getattr(node, f, None)
+        if isinstance(v, list) and v and isinstance(v[0], ast.stmt):
+            yield node, f, v      # ExceptHandler nodes have a `body` of their own and are reached by the walk
+
+
+def canon_blocks(tree):
+    """block normal forms, applied after CanonCompare:
+    * `if c: ...; return/raise/continue/break  else: REST` (and the same spelled as an elif chain) is read as `if c: ...` followed by REST;
+    * `t = E; return t` with t used nowhere else in the function is read as `return E`."""
+    def flatten(stmts):
+        out = []
+        for s in stmts:
+            out.append(s)
+            if isinstance(s, ast.If) and s.orelse and isinstance(s.body[-1], TERMINATORS):
+                rest, s.orelse = s.orelse, []
+                out.extend(flatten(rest))
+        return out
+
+    for node in list(ast.walk(tree)):
+        for owner, f, v in list(_blocks(node)):
+            setattr(owner, f, flatten(v))
+    for fn in [n for n in ast.walk(tree) if isinstance(n, (ast.FunctionDef, ast.AsyncFunctionDef))]:
+        counts = {}
+        for n in ast.walk(fn):
+            if isinstance(n, ast.Name):
+                counts[n.id] = counts.get(n.id, 0) + 1
+        pairs = {}
+        for node in ast.walk(fn):
+            for owner, f, v in list(_blocks(node)):
+                if len(v) >= 2 and isinstance(v[-1], ast.Return) and isinstance(v[-1].value, ast.Name) and isinstance(v[-2], ast.Assign) \
+                        and len(v[-2].targets) == 1 and isinstance(v[-2].targets[0], ast.Name) and v[-2].targets[0].id == v[-1].value.id:
+                    pairs.setdefault(v[-1].value.id, []).append(v)
+        for name, blocks in pairs.items():
+            if counts.get(name) == 2 * len(blocks):     # every occurrence of the name is one of these assign-then-return pairs
+                for v in blocks:
+                    v[-1].value = v[-2].value
+                    del v[-2]
+    return tree
 
 
 def norm(n):
@@ -108,7 +168,7 @@ class Model:
                         name = name[:-9]
                     text = open(p).read()
                     try:
-                        self.mods[name] = ast.fix_missing_locations(CanonCompare().visit(ast.parse(text, p)))
+                        self.mods[name] = ast.fix_missing_locations(canon_blocks(CanonCompare().visit(ast.parse(text, p))))
                     except SyntaxError as e:
                         raise AnalysisError(f"{p} does not parse: {e}")
                     self.paths[name] = p
